@@ -8,6 +8,7 @@ def check(run):
     from checks import _tree_theorems
     run.prove(_tree_theorems.C07)
     rng = run.rng
+    treegen.init_special(run.harness())      # empty-subtree roots as leaf values
     quick = run.tier == "quick"
     nseq = 40 if quick else 400
     kinds = ["set", "set", "del", "app", "app", "range"]
